@@ -37,6 +37,9 @@ type PoolCase struct {
 	Mode       string      `json:"mode"` // normal | anyorder
 	Phases     []PoolPhase `json:"phases,omitempty"`
 	AnyOrder   [][]PoolAct `json:"anyorder,omitempty"` // per goroutine: arbitrary Run/Stop/Send order
+	// CtxPerRun (normal mode): every Run gets a context of its own; the contexts of earlier lives
+	// (whose Stop has returned) are cancelled while the senders of a later life are at work
+	CtxPerRun bool `json:"ctx_per_run,omitempty"`
 }
 
 // SchedSpec is the schedule part of a case.
@@ -121,7 +124,7 @@ func init() { Register(propC16{}) }
 func (propC16) ID() string    { return "C16" }
 func (propC16) Level() string { return "exploration" }
 func (propC16) Rule() string {
-	return "cases: seeded pool programs (1-3 workers, 2-4 concurrent senders, quick and gate-blocked jobs, Stop/Run cycles, Stop racing with senders, arbitrary Run/Stop/Send orders) x seeded schedule (uniform/PCT); distinct = hash(program, context-switch trace); non-trivial = at least one Send timed out into the deferred list, or a Stop overlapped a Send or a running job, or (any-order mode) two lifecycle calls overlapped"
+	return "cases: seeded pool programs (1-3 workers, 2-4 concurrent senders, quick and gate-blocked jobs, Stop/Run cycles (half of the programs: every Run with a context of its own, the contexts of earlier lives ending during later ones), Stop racing with senders, arbitrary Run/Stop/Send orders) x seeded schedule (uniform/PCT); distinct = hash(program, context-switch trace); non-trivial = at least one Send timed out into the deferred list, or a Stop overlapped a Send or a running job, or (any-order mode) two lifecycle calls overlapped"
 }
 func (propC16) Assumptions() []string {
 	return []string{
@@ -196,6 +199,7 @@ func (propC16) Gen(r *simrt.Rand, idx int, tier string) any {
 		ph.StopAfter = p < nph-1 || r.Intn(2) == 0
 		c.Phases = append(c.Phases, ph)
 	}
+	c.CtxPerRun = r.Intn(2) == 0
 	return c
 }
 
@@ -301,6 +305,7 @@ func (propC16) Exec(x any, choices []int32) RunOut {
 	var (
 		nontrivial  bool
 		timerInSend uint64
+		oldCtxEnded uint64
 	)
 	res := simrt.Run(c.Sched.config(choices), func() {
 		pool := wpool.New(wpool.Options{NumWorkers: c.NumWorkers, SendDuration: time.Duration(c.SendDurNs)})
@@ -347,18 +352,45 @@ func (propC16) Exec(x any, choices []int32) RunOut {
 			return
 		}
 
-		pool.Run(ctx)
-		w.runRet = append(w.runRet, simrt.Step())
+		var cancels []func()
+		run := func() {
+			rctx := ctx
+			if c.CtxPerRun {
+				var cancel func()
+				rctx, cancel = sctx.WithCancel(ctx)
+				cancels = append(cancels, cancel)
+			}
+			pool.Run(rctx)
+			w.runRet = append(w.runRet, simrt.Step())
+		}
+		defer func() {
+			for _, cancel := range cancels {
+				cancel()
+			}
+		}()
+		run()
 		running := true
 		for pi, ph := range c.Phases {
 			if !running {
-				pool.Run(ctx)
-				w.runRet = append(w.runRet, simrt.Step())
+				run()
 				running = true
 			}
 			w.gate = make(chan struct{})
 			gate := w.gate
 			var wg, stopWg simrt.WaitGroup
+			if len(cancels) > 1 {
+				// the context an earlier life was run with ends now: that life is over (its Stop has
+				// returned), the pool of this life must not care
+				old := cancels[:len(cancels)-1]
+				stopWg.Add(1)
+				simrt.GoNamed(fmt.Sprintf("oldctx%d", pi), 0, func() {
+					defer stopWg.Done()
+					for _, cancel := range old {
+						cancel()
+					}
+					oldCtxEnded++
+				})
+			}
 			first := len(w.jobs)
 			tf0 := simrt.TimerFires()
 			inSend := 0
@@ -478,6 +510,9 @@ func (propC16) Exec(x any, choices []int32) RunOut {
 	out.CaseHash = h.Sum64() ^ res.SwitchHash
 	out.Sample, _ = json.Marshal(map[string]any{"case": c, "steps": res.Steps, "switches": res.Switches, "jobs": len(w.jobs)})
 	out.Probes = map[string]uint64{}
+	if oldCtxEnded > 0 {
+		out.Probes["context-of-an-earlier-life-ended-during-a-later-one"] = oldCtxEnded
+	}
 	if timerInSend > 0 {
 		out.Probes["send-timeout-fired"] = timerInSend
 	}
